@@ -30,6 +30,7 @@ def run(ctx):
     # the withdraw hook only honours the LP token itself (else a foreign cw20 could burn the locked minimum stake)
     from .C16 import check_hook_authorisation
     from .poolvalue import check_direct_withdraw
+    check_share_formula(ctx, model)
     check_direct_withdraw(ctx, model, "C05-V4", "vault::contract::execute", r"^vault::execute::receive::withdraw::withdraw$", "vault::state::CONFIG", ("lp_asset", "#NativeToken", "denom"))
     check_hook_authorisation(ctx, model, rule="C05-V4", only={"vault"})
     for p in (DEP, WD, GS):
@@ -125,3 +126,46 @@ def run(ctx):
     check_deposit(px, model)
     check_flash_loan(px, model)
     check_after_trade(px, model)
+
+
+def check_share_formula(ctx, model):
+    """V8: the shares minted to the depositor are amount * total_share / total_deposits in integer arithmetic (product
+    first, one floor division at the end) on a non-empty vault, and amount - MINIMUM_LIQUIDITY_AMOUNT on an empty one;
+    total_deposits = balance - pending protocol fees - (the deposit, when it has already arrived). Dividing by a
+    pre-computed (truncated) price, or dividing before multiplying, rounds in the depositor's favour for large amounts."""
+    from ..dataflow import expr_shape, norm_shape
+    from ..facts import mname
+    v = ctx.view(DEP, "C05-V8")
+    if v is None:
+        return
+    amount = None
+    for i in range(1, v.argc + 1):
+        if v.local_ty(i).endswith("cosmwasm_std::Uint128"):
+            amount = "param(%d)" % i
+    env_addr = None
+    user_mints = []
+    for b, t in v.calls_to(r"mint_lp_token_msg$"):
+        rec = v.origins_of_operand(t["args"][1], at=v.at_term(b))
+        if rec and all(o.kind == "param" and tuple(o.proj) == ("sender",) for o in rec):
+            user_mints.append((b, norm_shape(expr_shape(v, t["args"][-1], v.at_term(b), depth=6))))
+    if len(user_mints) != 1 or amount is None:
+        ctx.missing("C05-V8", "single mint to the depositor in deposit")
+        return
+    b, sh = user_mints[0]
+    alts = list(sh[1:]) if isinstance(sh, tuple) and sh[0] == "phi" else [sh]
+
+    def has(sh_, needle):
+        return needle in repr(sh_)
+    first = [a for a in alts if isinstance(a, tuple) and a[0] == "sub" and a[1][0] == amount and has(a[1][1], "MINIMUM_LIQUIDITY_AMOUNT")]
+    later = []
+    for a in alts:
+        if not (isinstance(a, tuple) and a[0] == "div" and len(a[1]) == 2):
+            continue
+        num, den = a[1]
+        ok_num = isinstance(num, tuple) and num[0] == "mul" and len(num[1]) == 2 and amount in num[1] and any(isinstance(x, tuple) and x[0] == "get_total_share" for x in num[1])
+        ok_den = isinstance(den, tuple) and den[0] == "sub" and has(den, "query_pool") and has(den, "COLLECTED_PROTOCOL_FEES).amount") and not has(den, "ALL_TIME")
+        if ok_num and ok_den:
+            later.append(a)
+    ok = len(alts) == 2 and len(first) == 1 and len(later) == 1
+    ctx.ob("C05-V8", "%s|share=amount*supply/deposits" % DEP, ok,
+           "depositor's shares computed as %s (expected phi of amount - MINIMUM_LIQUIDITY_AMOUNT and (amount * total_share) / (balance - pending fees - arrived deposit))" % (sh,), v.where(b))
